@@ -175,3 +175,29 @@ def setup_group(sb, cps, pathsname, texts, filename, records, delimiter=",", quo
         cps.file_manager.add_named_file(name=filename, path=os.path.join(sb.root, rel))
         cps.paths_manager.add_named_paths(name=pathsname, paths=list(texts))
     return rel
+
+
+def run_next_with_snapshots(text, delimiter=",", quotechar='"'):
+    """iterate next() on a fresh CsvPath, recording the state tuple at every yield"""
+    import copy
+
+    buf = io.StringIO()
+    snaps = []
+    lines = []
+    raised = None
+    with warnings.catch_warnings(), contextlib.redirect_stdout(buf):
+        p, cp = new_path(delimiter=delimiter, quotechar=quotechar)
+        try:
+            p.parse(text)
+            for ln in p.next():
+                lines.append(list(ln))
+                st = state_of(p, cp)
+                st = copy.deepcopy({k: v for k, v in st.items() if k != "stopped"})
+                snaps.append(st)
+        except Exception as e:  # noqa: BLE001
+            raised = core.Raised(e).to_json()
+    res = state_of(p, cp)
+    res["lines"] = lines
+    res["raised"] = raised
+    res["snapshots"] = snaps
+    return res
